@@ -263,6 +263,9 @@ func (b *Builder) expandBody(nf *ssa.Function, fn *ssa.Function) {
 	if len(b.Inlined[nf]) > 0 {
 		dropDeadClosures(nf)
 		finish(nf)
+		for i := 0; i < 6 && scalarizeStructCopies(nf); i++ {
+			finish(nf)
+		}
 		for i := 0; i < 4 && forwardStructLoads(nf); i++ {
 			finish(nf)
 			if dropDeadStructs(nf) {
